@@ -500,6 +500,7 @@ def unsafe_routes(tree):
     from awesomeyaml.nodes.composed import ComposedNode
     from awesomeyaml.nodes.xref import XRefNode
     out = {}
+    per_id = {}
 
     def visit(n, where, seen):
         if id(n) in seen or not hasattr(n, 'ayns'):
@@ -526,11 +527,18 @@ def unsafe_routes(tree):
             if isinstance(nm, str) and nm.split('.')[-1].startswith('call_'):
                 k = int(nm.split('.')[-1][5:])
                 seen = {id(n)}
+                found = None
                 for name, child in n.ayns.named_children():
                     r = visit(child, f'{path}.{name}', seen)
                     if r:
-                        out[k] = r
+                        found = r
                         break
+                per_id.setdefault(k, {})[id(n)] = found
+    # a target can stand in several function nodes (a merge that gives an aliased node another target leaves the other place with a
+    # node of its own): the log knows the target only, so the witness speaks only when every node with that target has a route
+    for k, nodes in per_id.items():
+        if all(nodes.values()):
+            out[k] = next(iter(nodes.values()))
     return out
 
 
